@@ -20,6 +20,11 @@ type Budget struct {
 type Prop struct {
 	ID          string
 	Engine      string
+	// AlsoEngine: a second engine that decides another half of the property;
+	// every AlsoEvery-th batch of runs (by run index, so that a run index always
+	// names the same engine) goes to it. Replay files carry their own engine.
+	AlsoEngine string
+	AlsoEvery  int
 	Race        bool
 	Level       string // EVIDENCE level enum
 	LevelText   string
